@@ -1,5 +1,5 @@
 (* Properties_C04.v — end to end, browsers converge to the services actually offered (partial). *)
-From QV Require Import Base Fields SrcFacts Msg SrcDecisions Cache CacheSpec Sim Prober Hostname Provider ProviderSpec ProviderListener Browser BrowserProofs NetProofs NetHop NetPair NetLag NetTwo NetMany.
+From QV Require Import Base Fields SrcFacts Msg SrcDecisions Cache CacheSpec Sim Prober Hostname Provider ProviderSpec ProviderListener Browser BrowserProofs NetProofs NetHop NetPair NetLag NetTwo NetMany NetManyDup.
 From QV Require Import Decoder Encoder WireSpec WireMsg DecoderMsg EncoderMsg.
 Local Open Scope Z_scope.
 
@@ -386,8 +386,15 @@ Print Assumptions C04_every_browser_follows_its_provider_partial.
    creates, updates and completes its probe (three records on the link) while provider 1 registers; each browser follows its provider *)
 Example C04_symmetric_nonvacuous :
   exists P bs, netS P bs /\ pv_confirmed (cp_prov (o_comp (P 0%nat))) = true /\ h_reg (cp_host (o_comp (P 1%nat))) = true
-    /\ length (o_link (P 0%nat)) = 3%nat /\ map bn_type bs = map bn_type B0 /\ forall j, o_type (P j) = o_type (P0 j).
+    /\ length (o_link (P 0%nat)) = 3%nat /\ map bn_type bs = map bn_type B0 /\ forall j, o_type (P j) = o_type (Fam0 j).
 Proof. exact symmetric_nonvacuous. Qed.
-Example C04_symmetric_follows P b0 b1 : (forall j, o_type (P j) = o_type (P0 j)) -> map bn_type [b0; b1] = map bn_type B0 ->
+Example C04_symmetric_follows P b0 b1 : (forall j, o_type (P j) = o_type (Fam0 j)) -> map bn_type [b0; b1] = map bn_type B0 ->
   follows P 0 b0 /\ follows P 1 b1.
 Proof. exact (symmetric_follows P b0 b1). Qed.
+
+(* ... and on a duplicating link (NetManyDup.v): every multicast response arrives 1 + d(message) times in a row at every
+   browser; the same conclusion. *)
+Theorem C04_every_browser_follows_its_provider_duplicated_partial (d : message -> nat) P bs :
+  netSd d P bs -> forall i b, In b bs -> follows P i b -> reports_served (bn_type b) (o_comp (P i)) (bn_world b).
+Proof. exact (every_browser_follows_its_provider_duplicated d P bs). Qed.
+Print Assumptions C04_every_browser_follows_its_provider_duplicated_partial.
